@@ -1,8 +1,9 @@
-(* C03 proofs, part 1: the tokenising primitives never leave their buffers on bounded input.
-     xe_safe / extract_element_safe      position-independent bound (run_ok) => no XOOB
-     xe_consumed / extract_element_ok    a successful extraction consumes between 2 and |from| bytes
-     xfw_safe                            the same for extract_element_fixed_width
-     xe_tok / extract_header_safe        the three header tokens under hdr_bounded *)
+(* C03 proofs, part 1: the tokenising primitives.
+     xe_safe / extract_element_safe      the repaired extract_element never returns XOOB (any input)
+     xe_consumed / extract_element_ok    a successful extraction consumes between 2 and |from| bytes,
+                                         at least |tag| + 2
+     xfw_safe / extract_fw_safe          extract_element_fixed_width under bounded digit runs
+     extract_header_safe / _len          extract_header: no OOB; a MsgType text implies >= 7 bytes *)
 From Coq Require Import NArith ZArith List Bool Lia.
 From F8 Require Import Codec.Bytes Codec.Meta Codec.Extract Codec.Decode C03.Bounds.
 Import ListNotations.
@@ -53,87 +54,6 @@ Proof.
     + apply N.eqb_neq in E. rewrite lenN_cons in *. rewrite IH by lia. lia.
 Qed.
 
-(* ------------------------------------------------------------------ run_ok *)
-Definition vle (a b : option N) : Prop :=
-  match a, b with
-  | None, _ => True
-  | Some x, Some y => x <= y
-  | Some _, None => False
-  end.
-
-Definition step_dk (dk c : N) : N := if is_digit c then dk + 1 else 0.
-Definition step_vk (vk : option N) (c : N) : option N :=
-  match vk with Some k => Some (k + 1) | None => if c =? EQC then Some 0 else None end.
-Definition vk_lt (vk : option N) (vcap : N) : bool := match vk with Some k => k <? vcap | None => true end.
-
-Lemma run_ok_cons tcap vcap dk vk c r :
-  run_ok tcap vcap dk vk (c :: r) =
-  if c =? SOH then run_ok tcap vcap 0 None r
-  else (step_dk dk c <? tcap) && vk_lt (step_vk vk c) vcap && run_ok tcap vcap (step_dk dk c) (step_vk vk c) r.
-Proof. reflexivity. Qed.
-
-Lemma step_vk_mono vk vk' c : vle vk' vk -> vle (step_vk vk' c) (step_vk vk c).
-Proof.
-  unfold vle, step_vk. destruct vk' as [k'|], vk as [k|]; try tauto; intros H;
-    destruct (c =? EQC); try lia; exact I.
-Qed.
-
-Lemma vk_lt_mono vk vk' vcap : vle vk' vk -> vk_lt vk vcap = true -> vk_lt vk' vcap = true.
-Proof.
-  unfold vle, vk_lt. destruct vk' as [k'|], vk as [k|]; try tauto; intros H H1; try reflexivity.
-  apply N.ltb_lt in H1. apply N.ltb_lt. lia.
-Qed.
-
-Lemma run_ok_mono tcap vcap : forall l dk vk dk' vk',
-  run_ok tcap vcap dk vk l = true -> dk' <= dk -> vle vk' vk -> run_ok tcap vcap dk' vk' l = true.
-Proof.
-  induction l as [|c r IH]; intros dk vk dk' vk' H Hd Hv; [reflexivity|].
-  rewrite run_ok_cons in *. destruct (c =? SOH); [exact H|].
-  apply andb_true_iff in H. destruct H as [H H3]. apply andb_true_iff in H. destruct H as [H1 H2].
-  apply N.ltb_lt in H1.
-  assert (Hs : step_dk dk' c <= step_dk dk c) by (unfold step_dk; destruct (is_digit c); lia).
-  pose proof (step_vk_mono vk vk' c Hv) as Hv'.
-  apply andb_true_iff. split; [apply andb_true_iff; split|].
-  - apply N.ltb_lt. lia.
-  - exact (vk_lt_mono _ _ _ Hv' H2).
-  - exact (IH _ _ _ _ H3 Hs Hv').
-Qed.
-
-Lemma run_ok_tail tcap vcap c r dk vk : run_ok tcap vcap dk vk (c :: r) = true -> run_ok tcap vcap 0 None r = true.
-Proof.
-  rewrite run_ok_cons. destruct (c =? SOH); [auto|].
-  intros H. apply andb_true_iff in H. destruct H as [_ H].
-  apply (run_ok_mono tcap vcap r _ _ 0 None H); [lia|exact I].
-Qed.
-
-Lemma run_ok_skip tcap vcap : forall l n, run_ok tcap vcap 0 None l = true -> run_ok tcap vcap 0 None (skipN n l) = true.
-Proof.
-  induction l as [|c r IH]; intros n H; [reflexivity|].
-  destruct (N.eq_dec n 0) as [->|Hn]; [rewrite skipN_0; exact H|].
-  rewrite skipN_cons_pos by lia. apply IH. exact (run_ok_tail _ _ c r 0 None H).
-Qed.
-
-Lemma run_ok_step tcap vcap c r dk vk : run_ok tcap vcap dk vk (c :: r) = true -> (c =? SOH) = false ->
-  step_dk dk c < tcap /\ vk_lt (step_vk vk c) vcap = true /\ run_ok tcap vcap (step_dk dk c) (step_vk vk c) r = true.
-Proof.
-  rewrite run_ok_cons. intros H E. rewrite E in H. apply andb_true_iff in H. destruct H as [H H3].
-  apply andb_true_iff in H. destruct H as [H1 H2]. apply N.ltb_lt in H1. auto.
-Qed.
-
-Lemma digit_not_soh c : is_digit c = true -> (c =? SOH) = false.
-Proof.
-  unfold is_digit, SOH. intros H. apply andb_true_iff in H. destruct H as [H _].
-  apply N.leb_le in H. apply N.eqb_neq. lia.
-Qed.
-
-Lemma eqc_not_soh c : (c =? EQC) = true -> (c =? SOH) = false.
-Proof. unfold EQC, SOH. intros H. apply N.eqb_eq in H. apply N.eqb_neq. lia. Qed.
-
-Lemma eqc_not_digit c : (c =? EQC) = true -> is_digit c = false.
-Proof.
-  unfold EQC, is_digit. intros H. apply N.eqb_eq in H. subst c. reflexivity.
-Qed.
-
 (* ------------------------------------------------------------------ extract_element *)
 Lemma zero_write_ok nt nv tcap vcap k : nt < tcap -> nv < vcap -> zero_write nt nv tcap vcap k = k.
 Proof.
@@ -146,82 +66,41 @@ Lemma zero_write_not_ok nt nv tcap vcap t v t' v' r : zero_write nt nv tcap vcap
 Proof. unfold zero_write. destruct (negb (nt <? tcap)); [discriminate|]. destruct (negb (nv <? vcap)); discriminate. Qed.
 
 Lemma zero_write_ok_inv nt nv tcap vcap t v r t' v' r' :
-  zero_write nt nv tcap vcap (XOk t v r) = XOk t' v' r' -> r' = r.
+  zero_write nt nv tcap vcap (XOk t v r) = XOk t' v' r' -> r' = r /\ t' = t.
 Proof.
   unfold zero_write. destruct (negb (nt <? tcap)); [discriminate|].
   destruct (negb (nv <? vcap)); [discriminate|]. intros H. injection H. auto.
 Qed.
 
-(* the value-phase invariant: our value started at or after the first '=' of the segment *)
-Definition val_inv (inval : bool) (vk : option N) (nv vcap : N) : Prop :=
-  if inval then exists k, vk = Some k /\ nv <= k /\ k < vcap else nv = 0.
-
-Section XeSafe.
-Variables tc vc tcap vcap : N.
-Hypothesis Ht : tc <= tcap.
-Hypothesis Hv : vc <= vcap.
-Hypothesis Hv0 : 0 < vc.
-
-Lemma xe_safe : forall from sz ii (inval : bool) tag val nt nv dk vk,
-  run_ok tc vc dk vk from = true -> dk < tc -> (if inval then nt < tc else nt <= dk) ->
-  val_inv inval vk nv vc -> sz <= ii + lenN from ->
+(* the repaired loop: every write stays below the capacity, whatever the input *)
+Lemma xe_safe tcap vcap : forall from sz ii inval tag val nt nv,
+  nt < tcap -> nv < vcap -> sz <= ii + lenN from ->
   forall s, xe_loop from sz ii inval tag val nt nv tcap vcap <> XOOB s.
 Proof.
-  induction from as [|c rest IH]; intros sz ii inval tag val nt nv dk vk Hr Hk Hnt Hnv Hsz s.
-  - assert (nv < vcap) by (destruct inval; cbn in Hnv; [destruct Hnv as (k & _ & ? & ?)|]; lia).
-    assert (nt < tcap) by (destruct inval; lia).
-    cbn [xe_loop]. destruct (ii <? sz) eqn:E.
+  induction from as [|c rest IH]; intros sz ii inval tag val nt nv Hnt Hnv Hsz s.
+  - cbn [xe_loop]. destruct (ii <? sz) eqn:E.
     + apply N.ltb_lt in E. cbn in Hsz. lia.
     + rewrite zero_write_ok by lia. discriminate.
-  - assert (Hnvc : nv < vcap) by (destruct inval; cbn in Hnv; [destruct Hnv as (k & _ & ? & ?)|]; lia).
-    assert (Hntc : nt < tcap) by (destruct inval; lia).
-    cbn [xe_loop]. destruct (ii <? sz) eqn:E; [|rewrite zero_write_ok by lia; discriminate].
+  - cbn [xe_loop]. destruct (ii <? sz) eqn:E; [|rewrite zero_write_ok by lia; discriminate].
     rewrite lenN_cons in Hsz.
     destruct inval.
-    + destruct (c =? SOH) eqn:Es; [rewrite zero_write_ok by lia; discriminate|].
-      destruct (run_ok_step _ _ _ _ _ _ Hr Es) as (Hk1 & Hv1 & Hr1).
-      destruct (nv <? vcap) eqn:En; [|apply N.ltb_ge in En; lia].
-      destruct Hnv as (k & -> & Hnk & Hkv). cbn [step_vk vk_lt] in Hv1, Hr1. apply N.ltb_lt in Hv1.
-      apply (IH _ _ true _ _ _ _ (step_dk dk c) (Some (k + 1))); try assumption; try lia.
-      exists (k + 1). repeat split; lia.
-    + destruct (is_digit c) eqn:Ed.
-      * destruct (run_ok_step _ _ _ _ _ _ Hr (digit_not_soh _ Ed)) as (Hk1 & Hv1 & Hr1).
-        unfold step_dk in Hk1, Hr1. rewrite Ed in Hk1, Hr1.
-        destruct (nt <? tcap) eqn:En; [|apply N.ltb_ge in En; lia].
-        apply (IH _ _ false _ _ _ _ (dk + 1) (step_vk vk c)); try assumption; try lia.
-      * destruct (c =? EQC) eqn:Ee; [|rewrite zero_write_ok by lia; discriminate].
-        destruct (run_ok_step _ _ _ _ _ _ Hr (eqc_not_soh _ Ee)) as (Hk1 & Hv1 & Hr1).
-        apply (IH _ _ true _ _ _ _ (step_dk dk c) (step_vk vk c)); try assumption; try lia.
-        cbn in Hnv. subst nv. unfold step_vk in *. rewrite Ee in *.
-        destruct vk as [k|]; cbn [vk_lt] in Hv1; apply N.ltb_lt in Hv1; eexists; repeat split; lia.
+    + destruct (c =? SOH); [rewrite zero_write_ok by lia; discriminate|].
+      destruct (nv + 1 <? vcap) eqn:En; [|rewrite zero_write_ok by lia; discriminate].
+      apply N.ltb_lt in En. apply IH; lia.
+    + destruct (is_digit c).
+      * destruct (nt + 1 <? tcap) eqn:En; [|rewrite zero_write_ok by lia; discriminate].
+        apply N.ltb_lt in En. apply IH; lia.
+      * destruct (c =? EQC); [|rewrite zero_write_ok by lia; discriminate].
+        apply IH; lia.
 Qed.
 
-End XeSafe.
-
-Lemma xfw_safe tc vc tcap vcap val_sz : tc <= tcap -> val_sz < vcap -> forall from sz ii tag nt dk vk,
-  run_ok tc vc dk vk from = true -> dk < tc -> nt <= dk -> sz <= ii + lenN from ->
-  forall s, xfw_loop from sz ii val_sz tag nt tcap vcap <> XOOB s.
-Proof.
-  intros Ht Hvs. induction from as [|c rest IH]; intros sz ii tag nt dk vk Hr Hk Hnt Hsz s.
-  - cbn [xfw_loop]. destruct (ii <? sz) eqn:E.
-    + apply N.ltb_lt in E. cbn in Hsz. lia.
-    + rewrite zero_write_ok by lia. discriminate.
-  - cbn [xfw_loop]. destruct (ii <? sz) eqn:E; [|rewrite zero_write_ok by lia; discriminate].
-    rewrite lenN_cons in Hsz.
-    destruct (is_digit c) eqn:Ed.
-    + destruct (run_ok_step _ _ _ _ _ _ Hr (digit_not_soh _ Ed)) as (Hk1 & Hv1 & Hr1).
-      unfold step_dk in Hk1, Hr1. rewrite Ed in Hk1, Hr1.
-      destruct (nt <? tcap) eqn:En; [|apply N.ltb_ge in En; lia].
-      apply (IH _ _ _ _ (dk + 1) (step_vk vk c)); try assumption; lia.
-    + destruct (negb (c =? EQC) || (sz <? ii + 1 + val_sz)) eqn:Eb; [rewrite zero_write_ok by lia; discriminate|].
-      apply orb_false_iff in Eb. destruct Eb as [_ Eb]. apply N.ltb_ge in Eb.
-      destruct (val_sz <? vcap) eqn:Ev; [|apply N.ltb_ge in Ev; lia]. cbn [negb].
-      rewrite lenN_firstN by lia. rewrite N.ltb_irrefl. discriminate.
-Qed.
+Lemma lenN_rev {A} (l : list A) : lenN (rev l) = lenN l.
+Proof. rewrite !lenN_length, rev_length. reflexivity. Qed.
 
 Lemma xe_consumed : forall from sz ii inval tag val nt nv tcap vcap t v r,
   xe_loop from sz ii inval tag val nt nv tcap vcap = XOk t v r ->
-  (if inval then ii + 1 else ii + 2) <= r /\ r <= ii + lenN from /\ r <= sz.
+  (if inval then ii + 1 else ii + 2) <= r /\ r <= ii + lenN from /\ r <= sz /\
+  ii + lenN t + (if inval then 1 else 2) <= r + lenN tag.
 Proof.
   induction from as [|c rest IH]; intros sz ii inval tag val nt nv tcap vcap t v r H.
   - cbn [xe_loop] in H. destruct (ii <? sz); [discriminate|]. exfalso. exact (zero_write_not_ok _ _ _ _ _ _ _ _ _ H).
@@ -229,160 +108,162 @@ Proof.
     apply N.ltb_lt in E. rewrite lenN_cons.
     destruct inval.
     + destruct (c =? SOH).
-      * apply zero_write_ok_inv in H. subst r. lia.
-      * destruct (nv <? vcap); [|discriminate]. apply IH in H. cbn beta iota in H. lia.
+      * apply zero_write_ok_inv in H. destruct H as [-> ->]. rewrite lenN_rev. lia.
+      * destruct (nv + 1 <? vcap); [|exfalso; exact (zero_write_not_ok _ _ _ _ _ _ _ _ _ H)].
+        apply IH in H. cbn beta iota in H. lia.
     + destruct (is_digit c).
-      * destruct (nt <? tcap); [|discriminate]. apply IH in H. cbn beta iota in H. lia.
+      * destruct (nt + 1 <? tcap); [|exfalso; exact (zero_write_not_ok _ _ _ _ _ _ _ _ _ H)].
+        apply IH in H. cbn beta iota in H. rewrite lenN_cons in H. lia.
       * destruct (c =? EQC); [|exfalso; exact (zero_write_not_ok _ _ _ _ _ _ _ _ _ H)].
         apply IH in H. cbn beta iota in H. lia.
 Qed.
 
 Lemma extract_element_ok from sz tcap vcap t v r :
-  extract_element from sz tcap vcap = XOk t v r -> 2 <= r /\ r <= lenN from /\ r <= sz.
-Proof. unfold extract_element. intros H. apply xe_consumed in H. cbn beta iota in H. lia. Qed.
+  extract_element from sz tcap vcap = XOk t v r -> 2 <= r /\ r <= lenN from /\ r <= sz /\ lenN t + 2 <= r.
+Proof. unfold extract_element. intros H. apply xe_consumed in H. cbn beta iota in H. cbn [lenN] in H. lia. Qed.
 
-Lemma extract_element_safe tc vc tcap vcap from sz :
-  tc <= tcap -> vc <= vcap -> 0 < tc -> 0 < vc -> run_ok tc vc 0 None from = true -> sz <= lenN from ->
-  forall s, extract_element from sz tcap vcap <> XOOB s.
+Lemma extract_element_safe tcap vcap from sz :
+  0 < tcap -> 0 < vcap -> sz <= lenN from -> forall s, extract_element from sz tcap vcap <> XOOB s.
+Proof. intros Ht Hv Hsz. unfold extract_element. apply xe_safe; lia. Qed.
+
+Lemma extract_element_nil sz tcap vcap t v : extract_element [] sz tcap vcap = XFail t v -> v = [].
 Proof.
-  intros Ht Hv H0 Hv0 Hr Hsz. unfold extract_element.
-  apply (xe_safe tc vc tcap vcap Ht Hv Hv0 from sz 0 false [] [] 0 0 0 None); try assumption; try lia.
-  reflexivity.
+  unfold extract_element. cbn [xe_loop]. destruct (0 <? sz); [discriminate|].
+  unfold zero_write. destruct (negb (0 <? tcap)); [discriminate|]. destruct (negb (0 <? vcap)); [discriminate|].
+  intros H. injection H as _ <-. reflexivity.
 Qed.
 
-Lemma extract_fw_safe tc vc tcap vcap from sz val_sz :
-  tc <= tcap -> val_sz < vcap -> 0 < tc -> run_ok tc vc 0 None from = true -> sz <= lenN from ->
+(* ------------------------------------------------------------------ extract_element_fixed_width *)
+Lemma digit_runs_step cap dk c r : digit_runs_ok cap dk (c :: r) = true -> is_digit c = true ->
+  dk + 1 < cap /\ digit_runs_ok cap (dk + 1) r = true.
+Proof.
+  cbn [digit_runs_ok]. intros H E. rewrite E in H. apply andb_true_iff in H. destruct H as [H1 H2].
+  apply N.ltb_lt in H1. auto.
+Qed.
+
+Lemma digit_runs_mono cap : forall l dk dk', digit_runs_ok cap dk l = true -> dk' <= dk -> digit_runs_ok cap dk' l = true.
+Proof.
+  induction l as [|c r IH]; intros dk dk' H Hd; [reflexivity|].
+  cbn [digit_runs_ok] in *. apply andb_true_iff in H. destruct H as [H1 H2]. apply N.ltb_lt in H1.
+  destruct (is_digit c).
+  - apply andb_true_iff. split; [apply N.ltb_lt; lia|]. apply (IH (dk + 1)); [exact H2|lia].
+  - apply andb_true_iff. split; [apply N.ltb_lt; lia|]. exact H2.
+Qed.
+
+Lemma digit_runs_skip cap : forall l n, digit_runs_ok cap 0 l = true -> digit_runs_ok cap 0 (skipN n l) = true.
+Proof.
+  induction l as [|c r IH]; intros n H; [reflexivity|].
+  destruct (N.eq_dec n 0) as [->|Hn]; [rewrite skipN_0; exact H|].
+  rewrite skipN_cons_pos by lia. apply IH.
+  cbn [digit_runs_ok] in H. apply andb_true_iff in H. destruct H as [_ H].
+  apply (digit_runs_mono cap r _ 0 H). lia.
+Qed.
+
+Lemma xfw_safe cap tcap vcap val_sz : cap <= tcap -> val_sz < vcap -> forall from sz ii tag nt dk,
+  digit_runs_ok cap dk from = true -> dk < cap -> nt <= dk -> sz <= ii + lenN from ->
+  forall s, xfw_loop from sz ii val_sz tag nt tcap vcap <> XOOB s.
+Proof.
+  intros Ht Hvs. induction from as [|c rest IH]; intros sz ii tag nt dk Hr Hk Hnt Hsz s.
+  - cbn [xfw_loop]. destruct (ii <? sz) eqn:E.
+    + apply N.ltb_lt in E. cbn in Hsz. lia.
+    + rewrite zero_write_ok by lia. discriminate.
+  - cbn [xfw_loop]. destruct (ii <? sz) eqn:E; [|rewrite zero_write_ok by lia; discriminate].
+    rewrite lenN_cons in Hsz.
+    destruct (is_digit c) eqn:Ed.
+    + destruct (digit_runs_step _ _ _ _ Hr Ed) as [Hk1 Hr1].
+      destruct (nt <? tcap) eqn:En; [|apply N.ltb_ge in En; lia].
+      apply (IH _ _ _ _ (dk + 1)); try assumption; lia.
+    + destruct (negb (c =? EQC) || (sz <? ii + 1 + val_sz)) eqn:Eb; [rewrite zero_write_ok by lia; discriminate|].
+      apply orb_false_iff in Eb. destruct Eb as [_ Eb]. apply N.ltb_ge in Eb.
+      destruct (val_sz <? vcap) eqn:Ev; [|apply N.ltb_ge in Ev; lia]. cbn [negb].
+      rewrite lenN_firstN by lia. rewrite N.ltb_irrefl. discriminate.
+Qed.
+
+(* without the bound: the only memory error left is the tag write *)
+Lemma xfw_sites tcap vcap val_sz : val_sz < vcap -> forall from sz ii tag nt,
+  sz <= ii + lenN from ->
+  forall s, xfw_loop from sz ii val_sz tag nt tcap vcap = XOOB s -> s = site_tag_write.
+Proof.
+  intros Hvs. induction from as [|c rest IH]; intros sz ii tag nt Hsz s.
+  - cbn [xfw_loop]. destruct (ii <? sz) eqn:E.
+    + apply N.ltb_lt in E. cbn in Hsz. lia.
+    + unfold zero_write. destruct (negb (nt <? tcap)); [intros H; injection H as <-; reflexivity|].
+      destruct (0 <? vcap) eqn:E0; [discriminate|apply N.ltb_ge in E0; lia].
+  - cbn [xfw_loop]. rewrite lenN_cons in Hsz.
+    assert (Hz : forall k, zero_write nt 0 tcap vcap k = XOOB s -> (forall s', k <> XOOB s') -> s = site_tag_write).
+    { intros k. unfold zero_write. destruct (negb (nt <? tcap)); [intros H _; injection H as <-; reflexivity|].
+      destruct (0 <? vcap) eqn:E0; [|apply N.ltb_ge in E0; lia]. cbn [negb]. intros H Hk. exfalso. exact (Hk _ H). }
+    destruct (ii <? sz) eqn:E; [|intros H; apply (Hz _ H); discriminate].
+    destruct (is_digit c).
+    + destruct (nt <? tcap); [|intros H; injection H as <-; reflexivity].
+      apply IH. lia.
+    + destruct (negb (c =? EQC) || (sz <? ii + 1 + val_sz)) eqn:Eb; [intros H; apply (Hz _ H); discriminate|].
+      apply orb_false_iff in Eb. destruct Eb as [_ Eb]. apply N.ltb_ge in Eb.
+      destruct (val_sz <? vcap) eqn:Ev; [|apply N.ltb_ge in Ev; lia]. cbn [negb].
+      rewrite lenN_firstN by lia. rewrite N.ltb_irrefl. discriminate.
+Qed.
+
+Lemma extract_fw_safe cap tcap vcap from sz val_sz :
+  cap <= tcap -> val_sz < vcap -> 0 < cap -> digit_runs_ok cap 0 from = true -> sz <= lenN from ->
   forall s, extract_element_fixed_width from sz val_sz tcap vcap <> XOOB s.
 Proof.
   intros Ht Hv H0 Hr Hsz s. unfold extract_element_fixed_width.
   destruct (0 <? tcap) eqn:E1; [|apply N.ltb_ge in E1; lia].
   destruct (0 <? vcap) eqn:E2; [|apply N.ltb_ge in E2; lia]. cbn [andb].
-  apply (xfw_safe tc vc tcap vcap val_sz Ht Hv from sz 0 [] 0 0 None); try assumption; lia.
+  apply (xfw_safe cap tcap vcap val_sz Ht Hv from sz 0 [] 0 0); try assumption; lia.
 Qed.
 
-(* ------------------------------------------------------------------ one header token *)
-Lemma digit_run_spec : forall l n r, digit_run l = (n, r) -> skipN n l = r /\ lenN l = n + lenN r.
+Lemma extract_fw_sites tcap vcap from sz val_sz s :
+  0 < tcap -> val_sz < vcap -> sz <= lenN from ->
+  extract_element_fixed_width from sz val_sz tcap vcap = XOOB s -> s = site_tag_write.
 Proof.
-  induction l as [|c l IH]; intros n r H.
-  - cbn in H. injection H as <- <-. split; reflexivity.
-  - cbn [digit_run] in H. destruct (is_digit c).
-    + destruct (digit_run l) as [n' r'] eqn:E. injection H as <- <-.
-      destruct (IH _ _ eq_refl) as [H1 H2]. split.
-      * rewrite skipN_cons_pos by lia. replace (n' + 1 - 1) with n' by lia. exact H1.
-      * rewrite lenN_cons, H2. lia.
-    + injection H as <- <-. split; [apply skipN_0|lia].
+  intros Ht Hv Hsz. unfold extract_element_fixed_width.
+  destruct (0 <? tcap) eqn:E1; [|apply N.ltb_ge in E1; lia].
+  destruct (0 <? vcap) eqn:E2; [|apply N.ltb_ge in E2; lia]. cbn [andb].
+  apply xfw_sites; [exact Hv|lia].
 Qed.
 
-(* tag phase: digits are copied while they fit; then '=' switches to the value phase *)
-Lemma xe_phase1 tcap vcap : forall l sz ii tag val nt nv n r,
-  digit_run l = (n, r) -> nt + n < tcap -> nv < vcap -> sz = ii + lenN l ->
-  (exists tag' r', r = EQC :: r' /\
-     xe_loop l sz ii false tag val nt nv tcap vcap = xe_loop r' sz (ii + n + 1) true tag' val (nt + n) nv tcap vcap)
-  \/ ((forall r', r <> EQC :: r') /\ exists t v, xe_loop l sz ii false tag val nt nv tcap vcap = XFail t v).
-Proof.
-  induction l as [|c l IH]; intros sz ii tag val nt nv n r Hd Hn Hv Hsz.
-  - cbn in Hd. injection Hd as <- <-. right. split; [discriminate|].
-    cbn [xe_loop]. cbn in Hsz. replace (ii <? sz) with false by (symmetry; apply N.ltb_ge; lia).
-    rewrite zero_write_ok by lia. eauto.
-  - cbn [digit_run] in Hd. rewrite lenN_cons in Hsz. cbn [xe_loop].
-    replace (ii <? sz) with true by (symmetry; apply N.ltb_lt; lia).
-    destruct (is_digit c) eqn:Ed.
-    + destruct (digit_run l) as [n' r'] eqn:E. injection Hd as <- <-.
-      destruct (nt <? tcap) eqn:En; [|apply N.ltb_ge in En; lia].
-      destruct (IH sz (ii + 1) (c :: tag) val (nt + 1) nv n' r' eq_refl ltac:(lia) Hv ltac:(lia))
-        as [(tag' & r2 & Hr & Hx)|(Hne & t & v & Hx)].
-      * left. exists tag', r2. split; [exact Hr|]. rewrite Hx. f_equal; lia.
-      * right. split; [exact Hne|]. eauto.
-    + injection Hd as <- <-.
-      destruct (c =? EQC) eqn:Ee.
-      * left. apply N.eqb_eq in Ee. subst c. exists tag, l. split; [reflexivity|]. f_equal; lia.
-      * right. split.
-        { intros r' Hr. injection Hr as Hc _. subst c. rewrite N.eqb_refl in Ee. discriminate. }
-        rewrite zero_write_ok by lia. eauto.
-Qed.
-
-(* value phase *)
-Lemma xe_phase2 tcap vcap : forall l sz ii tag val nt nv m nx,
-  upto_soh l = (m, nx) -> nt < tcap -> nv + m < vcap -> sz = ii + lenN l ->
-  match nx with
-  | Some rest => (exists t v, xe_loop l sz ii true tag val nt nv tcap vcap = XOk t v (ii + m + 1))
-                 /\ skipN (m + 1) l = rest
-  | None => exists t v, xe_loop l sz ii true tag val nt nv tcap vcap = XFail t v
-  end.
-Proof.
-  induction l as [|c l IH]; intros sz ii tag val nt nv m nx Hu Hn Hv Hsz.
-  - cbn in Hu. injection Hu as <- <-. cbn [xe_loop]. cbn in Hsz.
-    replace (ii <? sz) with false by (symmetry; apply N.ltb_ge; lia).
-    rewrite zero_write_ok by lia. eauto.
-  - cbn [upto_soh] in Hu. rewrite lenN_cons in Hsz. cbn [xe_loop].
-    replace (ii <? sz) with true by (symmetry; apply N.ltb_lt; lia).
-    destruct (c =? SOH) eqn:Es.
-    + injection Hu as <- <-. rewrite zero_write_ok by lia. split.
-      * do 2 eexists. f_equal. lia.
-      * rewrite skipN_cons_pos by lia. apply skipN_0.
-    + destruct (upto_soh l) as [m' nx'] eqn:E. injection Hu as <- <-.
-      destruct (nv <? vcap) eqn:En; [|apply N.ltb_ge in En; lia].
-      specialize (IH sz (ii + 1) tag (c :: val) nt (nv + 1) m' nx' eq_refl Hn ltac:(lia) ltac:(lia)).
-      destruct nx' as [rest|].
-      * destruct IH as [(t & v & Hx) Hs]. split.
-        { exists t, v. rewrite Hx. f_equal. lia. }
-        { rewrite skipN_cons_pos by lia. replace (m' + 1 + 1 - 1) with (m' + 1) by lia. exact Hs. }
-      * exact IH.
-Qed.
-
-Lemma xe_tok tcap vcap l : 0 < vcap -> fst (tok_bounded tcap vcap l) = true ->
-  match extract_element l (lenN l) tcap vcap with
-  | XOOB _ => False
-  | XOk _ _ r => snd (tok_bounded tcap vcap l) = Some (skipN r l)
-  | XFail _ _ => True
-  end.
-Proof.
-  intros Hv0 Hb. unfold tok_bounded in *. destruct (digit_run l) as [n r] eqn:Ed.
-  destruct (digit_run_spec _ _ _ Ed) as [Hsk Hlen].
-  unfold extract_element.
-  assert (Hn : n < tcap).
-  { destruct r as [|c r']; [apply N.ltb_lt; exact Hb|].
-    destruct (c =? EQC); [|apply N.ltb_lt; exact Hb].
-    destruct (upto_soh r'). cbn [fst] in Hb. apply andb_true_iff in Hb. apply N.ltb_lt. tauto. }
-  destruct (xe_phase1 tcap vcap l (lenN l) 0 [] [] 0 0 n r Ed ltac:(lia) Hv0 ltac:(lia))
-    as [(tag' & r' & Hr & Hx)|(Hne & t & v & Hx)].
-  - rewrite Hr in Hb, Hlen, Hsk |- *. clear Hr. rewrite Hx. rewrite N.eqb_refl in *.
-    destruct (upto_soh r') as [m nx] eqn:Eu. cbn [fst snd] in *.
-    apply andb_true_iff in Hb. destruct Hb as [_ Hm]. apply N.ltb_lt in Hm.
-    rewrite lenN_cons in Hlen.
-    pose proof (xe_phase2 tcap vcap r' (lenN l) (0 + n + 1) tag' [] (0 + n) 0 m nx Eu ltac:(lia) ltac:(lia) ltac:(lia)) as H2.
-    destruct nx as [rest|].
-    + destruct H2 as [(t & v & Hy) Hs]. rewrite Hy. f_equal.
-      replace (0 + n + 1 + m + 1) with (n + (1 + (m + 1))) by lia.
-      rewrite skipN_add, Hsk, skipN_add. rewrite skipN_cons_pos by lia. rewrite skipN_0. symmetry. exact Hs.
-    + destruct H2 as (t & v & Hy). rewrite Hy. exact I.
-  - rewrite Hx. exact I.
-Qed.
-
-Lemma extract_header_safe bytes : hdr_bounded bytes = true ->
+(* ------------------------------------------------------------------ extract_header *)
+Lemma extract_header_safe bytes :
   forall s, extract_header bytes (cap_htag real_caps) (cap_hval real_caps) (cap_len real_caps)
                            (cap_mtype real_caps) <> OOB s.
 Proof.
-  intros Hh s. unfold hdr_bounded in Hh. cbn [real_caps cap_htag cap_hval cap_len cap_mtype].
-  unfold extract_header.
-  destruct (tok_bounded MAX_MSGTYPE_FIELD_LEN MAX_FLD_LENGTH bytes) as [b1 n1] eqn:E1.
-  apply andb_true_iff in Hh. destruct Hh as [Hb1 Hh]. subst b1.
-  pose proof (xe_tok MAX_MSGTYPE_FIELD_LEN MAX_FLD_LENGTH bytes ltac:(reflexivity)) as T1.
-  rewrite E1 in T1. specialize (T1 eq_refl). cbn [snd] in T1.
-  destruct (extract_element bytes (lenN bytes) MAX_MSGTYPE_FIELD_LEN MAX_FLD_LENGTH) as [tag1 val1 r1| |]; [|discriminate|contradiction].
+  intros s. cbn [real_caps cap_htag cap_hval cap_len cap_mtype]. unfold extract_header.
+  destruct (extract_element bytes (lenN bytes) MAX_MSGTYPE_FIELD_LEN MAX_FLD_LENGTH) as [tag1 val1 r1| |s1] eqn:E1;
+    [|discriminate|exfalso; revert E1; apply extract_element_safe; [reflexivity|reflexivity|lia]].
   destruct (negb (hd_is tag1 56)); [discriminate|].
-  subst n1.
-  destruct (tok_bounded MAX_MSGTYPE_FIELD_LEN MAX_MSGTYPE_FIELD_LEN (skipN r1 bytes)) as [b2 n2] eqn:E2.
-  apply andb_true_iff in Hh. destruct Hh as [Hb2 Hh]. subst b2.
-  pose proof (xe_tok MAX_MSGTYPE_FIELD_LEN MAX_MSGTYPE_FIELD_LEN (skipN r1 bytes) ltac:(reflexivity)) as T2.
-  rewrite E2 in T2. specialize (T2 eq_refl). cbn [snd] in T2. rewrite lenN_skipN in T2.
   destruct (extract_element (skipN r1 bytes) (lenN bytes - r1) MAX_MSGTYPE_FIELD_LEN MAX_MSGTYPE_FIELD_LEN)
-    as [tag2 val2 r2| |]; [|discriminate|contradiction].
+    as [tag2 val2 r2| |s2] eqn:E2;
+    [|discriminate|exfalso; revert E2; apply extract_element_safe; [reflexivity|reflexivity|rewrite lenN_skipN; lia]].
   destruct (negb (hd_is tag2 57)); [discriminate|].
-  subst n2. rewrite <- skipN_add in Hh.
-  pose proof (xe_tok MAX_MSGTYPE_FIELD_LEN MAX_MSGTYPE_FIELD_LEN (skipN (r1 + r2) bytes) ltac:(reflexivity) Hh) as T3.
-  rewrite lenN_skipN in T3.
   destruct (extract_element (skipN (r1 + r2) bytes) (lenN bytes - (r1 + r2)) MAX_MSGTYPE_FIELD_LEN MAX_MSGTYPE_FIELD_LEN)
-    as [tag3 val3 r3| |]; [|discriminate|contradiction].
+    as [tag3 val3 r3| |s3] eqn:E3;
+    [|discriminate|exfalso; revert E3; apply extract_element_safe; [reflexivity|reflexivity|rewrite lenN_skipN; lia]].
   destruct (negb (hd_is tag3 51 && hd_is (tl tag3) 53)); discriminate.
+Qed.
+
+Lemma hd_is_len l c : hd_is l c = true -> 1 <= lenN l.
+Proof. destruct l; [discriminate|]. intros _. rewrite lenN_cons. lia. Qed.
+
+(* a MsgType text (even a partial one) comes from a third token: the input has >= 7 bytes *)
+Lemma extract_header_len bytes tcap vcap lencap mtcap hlen len mtype :
+  extract_header bytes tcap vcap lencap mtcap = Ok (hlen, len, mtype) -> mtype <> [] -> 7 <= lenN bytes.
+Proof.
+  unfold extract_header. intros H Hm.
+  destruct (extract_element bytes (lenN bytes) tcap vcap) as [tag1 val1 r1| |s1] eqn:E1; try discriminate.
+  2:{ injection H as _ _ <-. contradiction. }
+  destruct (hd_is tag1 56) eqn:H1; cbn [negb] in H; [|injection H as _ _ <-; contradiction].
+  apply extract_element_ok in E1. apply hd_is_len in H1.
+  destruct (extract_element (skipN r1 bytes) (lenN bytes - r1) tcap lencap) as [tag2 val2 r2| |s2] eqn:E2; try discriminate.
+  2:{ injection H as _ _ <-. contradiction. }
+  destruct (hd_is tag2 57) eqn:H2; cbn [negb] in H; [|injection H as _ _ <-; contradiction].
+  apply extract_element_ok in E2. apply hd_is_len in H2. rewrite lenN_skipN in E2.
+  destruct (extract_element (skipN (r1 + r2) bytes) (lenN bytes - (r1 + r2)) tcap mtcap) as [tag3 val3 r3|t3 v3|s3] eqn:E3;
+    try discriminate.
+  - apply extract_element_ok in E3. rewrite lenN_skipN in E3. lia.
+  - injection H as _ _ <-.
+    destruct (skipN (r1 + r2) bytes) as [|x rest] eqn:Es.
+    + apply extract_element_nil in E3. contradiction.
+    + assert (Hl : lenN (skipN (r1 + r2) bytes) = N.succ (lenN rest)) by (rewrite Es; reflexivity).
+      rewrite lenN_skipN in Hl. lia.
 Qed.
